@@ -73,7 +73,8 @@ def run(ctx):
         for k in ("ev_svc", "ev_del", "ev_cfg", "ev_cfg_orphaning", "ev_node", "ev_node_flag_change", "ev_node_first_with_services_present",
                   "ev_spk", "fresh_announces_l2", "fresh_announces_bgp", "oracle_gone_checks",
                   "elig_history_checks", "multi_histories", "multi_contested_elections", "multi_dual_address_services",
-                  "l2_interface_checks_with_lists", "stack_histories", "stack_steps_with_same_named_services", "stack_services_expected_over_bgp"):
+                  "l2_interface_checks_with_lists", "stack_histories", "stack_steps_with_same_named_services", "stack_services_expected_over_bgp",
+                  "stack_shared_configuration_checks", "stack_events_without_reload"):
             if st.get(k, 0) == 0:
                 raise vlib.Broken("generator degenerate: counter %r is zero: %r" % (k, st))
 
